@@ -562,7 +562,7 @@ def _add_pattern_case(kind):
     return Case(kind, build, crosscheck=False)
 
 
-CONTRACTS.append(Contract("wntr.network.model:PatternRegistry.add_pattern", P + ["C20", "C01"],
+CONTRACTS.append(Contract("wntr.network.model:PatternRegistry.add_pattern", P + ["C20", "C01", "C11", "C13"],
                           [_add_pattern_case(k) for k in ("list_of_multipliers", "pattern_without_time_options", "pattern_with_its_own_time_options",
                                                           "list_of_multipliers,name_taken", "pattern_with_its_own_time_options,name_taken")]))
 
